@@ -993,6 +993,43 @@ def check_entry_pair_form(ctx, rule, P, fk, ents):
         ctx.ob(rule, fk + "/entry-pair", ok, "every entry contributes (hash_to_point(its own message, tag), its own key): %s" % why, where=where(e["fn"], e["bb"]))
 
 
+def closure_result(P, clo):
+    """What a closure literal returns, in the caller's terms (captured variables substituted), else None."""
+    from ..core.terms import subst
+
+    clo = B.peel(clo)
+    if not (clo.op == "agg" and clo.a[0][0] == "closure"):
+        return None
+    g = P.fns.get(clo.a[0][1])
+    if g is None:
+        return None
+    gev = evaluate(g)
+    envp = T("param", 1, gev.pname(1))
+    cap = {}
+    for i, c in enumerate(clo.a[1]):
+        cs = strip_sites(c)
+        for base in (envp, T("deref", envp)):
+            cap[T("field", base, str(i))] = cs
+    return strip_sites(subst(strip_sites(gev.ret), cap))
+
+
+def closing_pair_candidates(P, ev):
+    """2-tuples mentioning the `sig` parameter among the values a function hands to calls - also the one a lazily
+    evaluated `iter::once_with(|| (sig, -G))` / `repeat_with` closure returns."""
+    cand = {}
+    for s_ in ev.sites.values():
+        vals = [strip_sites(a_) for a_ in s_.args]
+        if s_.callee[0].split("::")[-1] in ("once_with", "repeat_with", "from_fn") and s_.args:
+            r = closure_result(P, s_.args[0])
+            if r is not None:
+                vals.append(r)
+        for v in vals:
+            for x in subterms(v):
+                if x.op == "agg" and x.a[0][0] == "tuple" and len(x.a[1]) == 2 and any(y.op == "param" and y.a[1] == "sig" for c_ in x.a[1] for y in subterms(c_)):
+                    cand[x] = True
+    return cand
+
+
 def _R():
     from . import guardrules as R
 
